@@ -301,6 +301,7 @@ fn module_symbols(arch: Arch, os: OsKind, m: &ModSpec, adversarial: bool) -> (Ve
     if chance("dump.sym.origins", 1, 2) {
         s.push_str("INLINE_ORIGIN 0 inlined_helper\nINLINE_ORIGIN 1 another_inlinee\n");
     }
+    let func_twins = chance("dump.sym.func_twins", 1, 4);
     let extra_rule = if chance("dump.cfi.extra_rule", 1, 4) { 1 + ch("dump.cfi.extra_rule.kind", 6) } else { 0 };
     if extra_rule > 0 {
         probe("e4.cfi_malformed_extra_rule");
@@ -333,6 +334,11 @@ fn module_symbols(arch: Arch, os: OsKind, m: &ModSpec, adversarial: bool) -> (Ve
         ];
         let fname = if i % 3 == 2 { format!("{} [{}]", SIGS[(i as usize / 3) % SIGS.len()], i) } else if i % 7 == 3 { format!("{}", SIGS[(i as usize) % SIGS.len()]) } else { format!("fn_{}_{}", leaf.replace(' ', "_"), i) };
         s.push_str(&format!("FUNC {:x} {:x} {:x} {}\n", addr, size, params, fname));
+        if func_twins && i % 5 == 1 {
+            // the same range described twice under another name (folded identical code): which
+            // description the table keeps must not depend on anything but the file
+            s.push_str(&format!("FUNC {:x} {:x} {:x} twin_of_{}\n", addr, size, params, i));
+        }
         if i % 2 == 0 {
             if i % 4 == 0 {
                 match inline_shape {
@@ -1122,6 +1128,14 @@ pub fn gen_world(opts: &WorldOpts) -> World {
             misc.protected_process = Some(ch("dump.misc.protected", 2));
         }
         synth = synth.add_stream(misc);
+        // now and then the directory lists a second stream of the same type with other content
+        // (the reader documents "the last one is used")
+        if chance("dump.dup_stream.misc", 1, 6) {
+            probe("e4.duplicate_stream");
+            let mut misc2 = MiscStream::new(e);
+            misc2.process_id = Some(9999);
+            synth = synth.add_stream(misc2);
+        }
     }
     if streams & 8 != 0 || flip_stack.is_some() || crash_in_region0 {
         // memory info list, with extreme ranges when adversarial
@@ -1209,6 +1223,13 @@ pub fn gen_world(opts: &WorldOpts) -> World {
                 .set_linux_cpu_info(cpuinfo.as_bytes())
                 .set_linux_proc_status(status.as_bytes())
                 .set_linux_environ(b"HOME=/home/u\0PATH=/bin\0HOME=/root\0");
+            if chance("dump.dup_stream.lsb", 1, 6) {
+                probe("e4.duplicate_stream");
+                synth = synth.add_stream(SimpleStream {
+                    stream_type: md::MINIDUMP_STREAM_TYPE::LinuxLsbRelease as u32,
+                    section: Section::with_endian(e).append_bytes(b"DISTRIB_ID=\"Second\"\nDISTRIB_RELEASE=1.0\nDISTRIB_CODENAME=dup\nDISTRIB_DESCRIPTION=\"Second 1.0\"\n"),
+                });
+            }
         }
         if streams & 128 != 0 {
             let mut maps = String::new();
